@@ -9,8 +9,10 @@
    so that on every machine reachable from an initial one the relation IS the fuelled executable loop
    (C15_run_relation_is_the_executable_loop).  The theorem keeps the suffix _partial because of what follows.
    NOT PROVED (tied by differential runs / oracles in the check): agreement of the chunked-queue interpreter with the
-   reference semantics up to merging of character tokens, agreement with the Rust code, the tree-builder half, the
-   normalisation law tree(x) = tree(normalise x). *)
+   reference semantics up to merging of character tokens, agreement with the Rust code, the
+   normalisation law tree(x) = tree(normalise x).
+   (3) at the END of this file: the tree-builder half over the token-level model of the XML tree builder - its result
+   does not depend on how character data is cut into character tokens (only the parse-error count can). *)
 From Coq Require Import List NArith Bool.
 From HV Require Import TokIR.IR TokIR.Interp TokIR.Checks TokIR.Chunk TokIR.QueueSim TokIR.ChunkExec TokIR.ChunkInv Gen.GenXmlTok Inst.InstXmlTok Inst.InstChunk.
 Import ListNotations.
@@ -116,3 +118,49 @@ Theorem C15_driver_chunking_independent_bom :
   hd SSuspend (snd (drive_flat xml_flavour true xml_table simd ent c1 sk fuel inj cs2 m [])).
 Proof. exact xml_drive_chunking_independent_bom. Qed.
 Print Assumptions C15_driver_chunking_independent_bom.
+
+(* ---------------------------------------------------------------------------------------------------------------
+   The tree-builder half (XmlNs/XSplit.v, over the token-level model of xml5ever's tree builder, XmlNs/XTreeModel.v).
+   The tokenizer theorems above give the same token stream for two chunkings of one input up to the SPLITTING of
+   character tokens.  The XML tree builder does not see that difference: *)
+From HV Require XmlNs.XTreeModel XmlNs.XSplit.
+
+(* two consecutive character tokens act like the one token holding both texts, in every builder state: the two
+   resulting states agree on the phase, the open elements (with all children built so far, text nodes merged),
+   the namespace stack, the current namespace map, the document children and the panic flag - on every field
+   except the number of parse errors reported so far ([noerr] sets that counter to 0), which no rule reads.
+   The counter can differ in the Start and End phases only, where character data is inspected as a whole by the
+   white-space test: "xy" before the root element is one error, "x" then "y" are two.  Empty pieces are included. *)
+Theorem C15_tree_builder_split_step :
+  forall (s : XTreeModel.tb) (a b : XTreeModel.str),
+  XSplit.noerr (XTreeModel.step (XTreeModel.step s (XTreeModel.TChars a)) (XTreeModel.TChars b)) =
+  XSplit.noerr (XTreeModel.step s (XTreeModel.TChars (a ++ b))).
+Proof. exact XSplit.split_step. Qed.
+Print Assumptions C15_tree_builder_split_step.
+
+(* in the Main phase (inside the root element) the two states are equal, error counter included: the second piece
+   is merged into the text node the first one created or extended *)
+Theorem C15_tree_builder_split_step_main :
+  forall (s : XTreeModel.tb) (a b : XTreeModel.str), XTreeModel.tphase s = XTreeModel.PMain ->
+  XTreeModel.step (XTreeModel.step s (XTreeModel.TChars a)) (XTreeModel.TChars b) =
+  XTreeModel.step s (XTreeModel.TChars (a ++ b)).
+Proof. exact XSplit.split_step_main. Qed.
+Print Assumptions C15_tree_builder_split_step_main.
+
+(* hence for whole token streams: if toks' is toks with some character tokens cut into consecutive pieces
+   ([XSplit.splits]: sp_nil, sp_same, sp_cut), the two runs build the same document, and end in states that agree
+   on everything but the error counter *)
+Theorem C15_tree_builder_independent_of_character_token_splitting :
+  forall toks toks', XSplit.splits toks toks' ->
+  XTreeModel.parse_tokens toks = XTreeModel.parse_tokens toks' /\
+  XSplit.noerr (XTreeModel.run toks) = XSplit.noerr (XTreeModel.run toks').
+Proof. intros toks toks' H. split; [exact (proj1 (XSplit.splits_parse toks toks' H))|exact (XSplit.splits_noerr toks toks' H)]. Qed.
+Print Assumptions C15_tree_builder_independent_of_character_token_splitting.
+
+(* the error counter really is not preserved *)
+Theorem C15_tree_builder_error_count_depends_on_splitting :
+  XSplit.splits [XTreeModel.TChars [120; 121]%N] [XTreeModel.TChars [120]%N; XTreeModel.TChars [121]%N] /\
+  XTreeModel.terrs (XTreeModel.run [XTreeModel.TChars [120; 121]%N]) = 1 /\
+  XTreeModel.terrs (XTreeModel.run [XTreeModel.TChars [120]%N; XTreeModel.TChars [121]%N]) = 2.
+Proof. exact XSplit.errs_differ. Qed.
+Print Assumptions C15_tree_builder_error_count_depends_on_splitting.
